@@ -129,7 +129,8 @@ def run_case(ctx, items, labelmsm, seekable=False):
         return
     for (raw, pos, m), (b, twin) in zip(ref, sent):
         good = RTCMMessage(payload=twin[3:-3], labelmsm=labelmsm)
-        if m is None or not eq(attrs(m), attrs(good)) or m.payload != good.payload:
+        if m is None or not eq(attrs(m), attrs(good)) or m.payload != good.payload or (
+                m.serialize() != good.serialize() or str(m) != str(good) or repr(m) != repr(good)):
             ctx.violation("validate0-decodes-differently", f"validate=0: frame {raw[:8].hex()}.. decodes differently "
                           f"from the same payload with a right checksum", params)
             return
@@ -141,7 +142,7 @@ def run_case(ctx, items, labelmsm, seekable=False):
                 ctx.violation("static-validate0-rejects", f"RTCMReader.parse(wrong-CRC frame, validate=0) raised "
                               f"{type(e).__name__}: {e}", params)
                 return
-            if not eq(attrs(s), attrs(good)):
+            if not eq(attrs(s), attrs(good)) or s.serialize() != good.serialize() or str(s) != str(good):
                 ctx.violation("validate0-decodes-differently", "static parser with validate=0 decodes a wrong-CRC frame "
                               "differently from its twin", params)
                 return
